@@ -79,9 +79,11 @@ FAILING = [
     ("parse error", "let vx_q = 1\nlet = 3"),
     ("runtime error after plain expressions", "7\n\"seven\"\n1 / 0"),
     ("runtime error in single expression", "8 / 0"),
+    ("type error in an input that triggers on-demand currency loading", "2 USD + 1 m"),
+    ("runtime error in an input that triggers on-demand currency loading", "1 GBP / 0"),
 ]
 PRE = ["2 + 3"]
-PROBES = ["ans", "_ * 2", "vx_q", "vx_f(1)", "vx_u", "lunar_radius -> km", "use extra::astronomy\nlunar_radius -> km", "let vx_q = 2\nvx_q", "fn vx_f(x) = 2 x\nvx_f(1)", "1 + 1"]
+PROBES = ["ans", "_ * 2", "vx_q", "vx_f(1)", "vx_u", "lunar_radius -> km", "use extra::astronomy\nlunar_radius -> km", "let vx_q = 2\nvx_q", "fn vx_f(x) = 2 x\nvx_f(1)", "1 + 1", "let USD = 5\nUSD"]
 
 
 def w_c06(seed, want_c02=False):
